@@ -54,7 +54,7 @@ def gen_tree(rng, shape, maxd=6, budget=24):
 
     def hook():
         w = {"mixed": "NMMMRCC", "pg": "NMMM", "cyg": "NCCC", "recover": "MMRRN", "tail": "NMMMC",
-             "deep": "MMMN", "cygpg": "MCMC", "plt": "NMMPPC", "plttail": "MPMP"}[shape]
+             "deep": "MMMN", "cygpg": "MCMC", "plt": "NMMPPC", "plttail": "MPMP", "recoverplt": "MRPPCM"}[shape]
         return rng.choice(w)
 
     def mk(d, allow_tail=True):
@@ -70,7 +70,7 @@ def gen_tree(rng, shape, maxd=6, budget=24):
                     break
                 n.kids.append(mk(d + 1))
         if allow_tail and left[0] > 0:
-            p = {"tail": 0.7, "mixed": 0.3, "recover": 0.3, "pg": 0.25, "plttail": 0.7, "plt": 0.3}.get(shape, 0.1)
+            p = {"tail": 0.7, "mixed": 0.3, "recover": 0.3, "pg": 0.25, "plttail": 0.7, "plt": 0.3, "recoverplt": 0.6}.get(shape, 0.1)
             nt = 0
             while rng.random() < p and nt < 3 and left[0] > 0:
                 n.tails.append(mk(d, allow_tail=(rng.random() < 0.4)))
@@ -962,7 +962,7 @@ def common_meta(ctx):
     ]
 
 
-SHAPES = ["mixed", "pg", "cyg", "recover", "tail", "deep", "cygpg", "plt", "plttail"]
+SHAPES = ["mixed", "pg", "cyg", "recover", "tail", "deep", "cygpg", "plt", "plttail", "recoverplt"]
 
 
 def run(ctx):
